@@ -1,6 +1,7 @@
 import SluProofs.Lemmas.LUInv
 import SluProofs.Lemmas.CxRat
 import SluProofs.Lemmas.LUSchedule
+import SluProofs.Lemmas.DfsTopo
 /-
 C02 — Factors reproduce the permuted matrix; pivoting bounds hold.
 
@@ -13,6 +14,36 @@ over an arbitrary field `K` with a magnitude function satisfying `MagLaws` (exac
 Reading the statements: `st.piv[k]` is the row of A chosen as k-th pivot (`perm_r[piv k] = k`);
 `st.L[k]` is column k of L indexed by ORIGINAL row, so `(Pr A Pc)(perm_r i, j) = A(i, pc⁻¹ j) =
 (P.col j).get i` and `L(perm_r i, k) = (st.L[k]).get i`; `st.U[j]` holds `U(0..j, j)`.
+
+ELIMINATION ORDER.  `luFactor` eliminates column j by ALL previous columns in natural order; the
+library ([sdcz]panel_dfs / column_dfs / panel_bmod / column_bmod) visits only the columns reached by
+a depth-first search, supernode by supernode, in a topological order.  What is proved here:
+* `luFactor_schedule_independent`, `luFactor_supernodal_schedule`, `luFactorBlocks_eq_luFactor`:
+  every `ValidSchedule` (visited columns once each, dependencies respected, every column left out
+  has multiplier zero) — processed by dense block updates — gives exactly the natural-order result;
+* `luFactor_dfs_validSchedule`, `luFactor_dfs_schedule`, `luFactor_dfs`, `luFactor_dfs_numeric`:
+  THE REVERSE POSTORDER OF THE DEPTH-FIRST SEARCH (`Slu.LU.dfsRevPost`, Slu/Model/Dfs.lean: from the
+  previous columns whose pivot row is a nonzero row of A(:,j), along the edges k → k' with
+  piv k' ∈ struct(L_k)) IS a valid schedule, for every pattern `adj`/`roots` that CONTAINS the
+  numerically nonzero one; hence the factorization that eliminates every column along that order
+  equals `luFactor`.  The search itself is verified in Lemmas/DfsTopo.lean: it lists no node twice,
+  lists exactly the reach of the roots, and lists every node before its successors
+  (`dfsPost_nodup`, `mem_dfsPost_iff`, `dfsPost_topo`);
+* `luFactor_snode_dfs_validSchedule`, `luFactor_snode_dfs_schedule`, `luFactor_snode_dfs`: the same
+  for the search on SUPERNODE REPRESENTATIVES with one block `repfnz[s]..s` per reached supernode
+  (`snodeSegs`), provided the structure of a supernode contains the numeric structure below the
+  diagonal block of each of its columns;
+* `validSchedule_filter` (Lemmas/DfsTopo.lean): a column of a panel may take its segments out of a
+  longer topological list (the panel-wide `segrep` of [sdcz]panel_dfs).
+What REMAINS tied by correspondence only (family `symb`), not by a theorem: that the C routines
+[sdcz]panel_dfs / [sdcz]column_dfs — iterative search with an explicit stack (`parent`, `xplore`),
+PRUNED adjacency lists (`xprune`), marker arrays shared across a panel — compute this search on a
+pattern (`xlsub`/`lsub`, `xsup`/`supno`) that contains the numeric one and satisfies the supernode
+hypothesis, and that `segrep`/`repfnz` as consumed by [sdcz]panel_bmod / column_bmod are the lists
+`snodeSegs` models.  (panel_bmod applies the segments that end before the panel, column_bmod then
+those inside the panel: two cuts of one topological order, which the "any grouping" form of
+`validSchedule_of_closedTopo` covers.  Pruning removes only edges whose target stays reachable
+through another path; that it leaves the reach unchanged is part of the `symb` correspondence.)
 -/
 namespace Slu.LU
 open Slu
@@ -268,6 +299,150 @@ theorem luFactorBlocks_eq_luFactor (laws : MagLaws K) (P : Params K Rat) (hP : L
 
 end Slu.LU
 
+/-! ### The schedule computed by the depth-first search -/
+namespace Slu.LU
+open Slu
+
+variable {K : Type} [Field K] [Mag K Rat]
+
+/-- **C02 (the DFS order is a valid schedule).** State `st` after `j` columns (`Inv`).  `adj` is any
+successor pattern on the previous columns whose edges go forward (`k < r < j`) and which CONTAINS
+the numerically nonzero one (`hpat`: `L_k(piv k') ≠ 0 → k' ∈ adj k`); `roots` are columns `< j`
+containing every `k` with `A(piv k, j) ≠ 0` (`hroots`).  Then the reached columns in reverse
+depth-first postorder (`dfsSchedule`), cut into consecutive blocks `bs` in any way, are a
+`ValidSchedule` for column `j`: each once, dependencies respected, every column not reached has
+multiplier zero in the natural-order elimination. -/
+theorem luFactor_dfs_validSchedule (P : Params K Rat) (st : St K) (j : Nat) (h : Inv P st j)
+    (adj : Nat → List Nat) (roots : List Nat)
+    (hadj : ∀ k, ∀ r ∈ adj k, k < r ∧ r < j) (hrootlt : ∀ r ∈ roots, r < j)
+    (hpat : ∀ k k', k < k' → k' < j → (st.L.getD k #[]).get (st.piv.getD k' 0) ≠ 0 → k' ∈ adj k)
+    (hroots : ∀ k < j, (P.col j).get (st.piv.getD k 0) ≠ 0 → k ∈ roots)
+    (bs : List (List (Nat × Vec K))) (hbs : bs.flatten = (dfsSchedule st j adj roots).flatten) :
+    ValidSchedule (prev st j) (P.col j) bs := by
+  have hlen : (prev st j).length = j := prev_length st j
+  apply validSchedule_dfs (prev st j) (P.col j) adj roots (fun k => (st.piv.getD k 0, st.L.getD k #[])) h.unit
+  · intro k hk; rw [prev_getElem]
+  · rw [hlen]; exact hadj
+  · rw [hlen]; exact hrootlt
+  · intro k k' hkk' hk'
+    rw [prev_getElem, prev_getElem]
+    exact hpat k k' hkk' (hlen ▸ hk')
+  · intro k hk
+    rw [prev_getElem]
+    exact hroots k (hlen ▸ hk)
+  · rw [hbs, dfsSchedule, scheduleOf_flatten, hlen]
+
+/-- **C02 (one column along the DFS order).** Eliminating column `j` by the reached columns only, in
+reverse depth-first postorder, leaves the eliminated column of the model and produces the model's
+next state (pivot decision, L column, U column). -/
+theorem luFactor_dfs_schedule (P : Params K Rat) (hP : Legal P) (st : St K) (j : Nat) (h : Inv P st j)
+    (adj : Nat → List Nat) (roots : List Nat)
+    (hadj : ∀ k, ∀ r ∈ adj k, k < r ∧ r < j) (hrootlt : ∀ r ∈ roots, r < j)
+    (hpat : ∀ k k', k < k' → k' < j → (st.L.getD k #[]).get (st.piv.getD k' 0) ≠ 0 → k' ∈ adj k)
+    (hroots : ∀ k < j, (P.col j).get (st.piv.getD k 0) ≠ 0 → k ∈ roots) :
+    (elimBlocks (dfsSchedule st j adj roots) (P.col j)).1 = stepW P st j ∧
+    stepBlocks P st j (dfsSchedule st j adj roots) = step P st j :=
+  luFactor_supernodal_schedule P hP st j h _
+    (luFactor_dfs_validSchedule P st j h adj roots hadj hrootlt hpat hroots _ rfl)
+
+/-- **C02 (whole factorization along the DFS order).** Patterns may be chosen per column and may
+depend on the factors computed so far; as long as each contains the numerically nonzero pattern of
+its column, the factorization that eliminates every column along the reverse depth-first postorder
+of its reach returns exactly `luFactor`. -/
+theorem luFactor_dfs (laws : MagLaws K) (P : Params K Rat) (hP : Legal P) (b : Bool)
+    (adj : St K → Nat → Nat → List Nat) (roots : St K → Nat → List Nat)
+    (hadj : ∀ j < P.n, ∀ k, ∀ r ∈ adj (run P b j) j k, k < r ∧ r < j)
+    (hrootlt : ∀ j < P.n, ∀ r ∈ roots (run P b j) j, r < j)
+    (hpat : ∀ j < P.n, (run P b j).info = 0 → ∀ k k', k < k' → k' < j →
+      ((run P b j).L.getD k #[]).get ((run P b j).piv.getD k' 0) ≠ 0 → k' ∈ adj (run P b j) j k)
+    (hroots : ∀ j < P.n, (run P b j).info = 0 → ∀ k < j,
+      (P.col j).get ((run P b j).piv.getD k 0) ≠ 0 → k ∈ roots (run P b j) j) :
+    luFactorBlocks P b (fun st j => dfsSchedule st j (adj st j) (roots st j)) = luFactor P b :=
+  luFactorBlocks_eq_luFactor laws P hP b _ (fun j hj h0 =>
+    luFactor_dfs_validSchedule P _ j (run_inv laws P (le_of_lt hP.u_pos) hP.u_le_one hP.col_size b j h0)
+      _ _ (hadj j hj) (hrootlt j hj) (hpat j hj h0) (hroots j hj h0) _ rfl)
+
+/-- **C02 (the numeric pattern, no hypothesis left).** With the search run on the numerically nonzero
+pattern itself (`numAdj`, `numRoots`) the DFS-ordered factorization equals `luFactor`. -/
+theorem luFactor_dfs_numeric [DecidableEq K] (laws : MagLaws K) (P : Params K Rat) (hP : Legal P) (b : Bool) :
+    luFactorBlocks P b (fun st j => dfsScheduleNum st j (P.col j)) = luFactor P b := by
+  apply luFactor_dfs laws P hP b (fun st j => numAdj st j) (fun st j => numRoots st j (P.col j))
+  · intro j _ k r hr
+    have := (mem_numAdj _ j k r).mp hr
+    exact ⟨this.2.1, this.1⟩
+  · intro j _ r hr
+    exact ((mem_numRoots _ j _ r).mp hr).1
+  · intro j _ _ k k' hkk' hk' hne
+    exact (mem_numAdj _ j k k').mpr ⟨hk', hkk', hne⟩
+  · intro j _ _ k hk hne
+    exact (mem_numRoots _ j _ k).mpr ⟨hk, hne⟩
+
+/-- **C02 (search on supernode representatives).** `rep k` is the last column of the supernode that
+holds column `k` (supernodes are runs of consecutive columns: `k ≤ rep k`, monotone, idempotent);
+`adjS s` lists columns beyond `s` and CONTAINS, for every column `k` of supernode `s`, the columns
+`k' > s` with `L_k(piv k') ≠ 0`; `roots` contains the columns hit by the nonzero rows of `A(:,j)`.
+Then `snodeSchedule` — one block `repfnz[s]..s` per reached representative, in reverse postorder
+of the search on representatives — is a valid schedule. -/
+theorem luFactor_snode_dfs_validSchedule (P : Params K Rat) (st : St K) (j : Nat) (h : Inv P st j)
+    (rep : Nat → Nat) (adjS : Nat → List Nat) (roots : List Nat)
+    (hge : ∀ k, k ≤ rep k) (hrlt : ∀ k < j, rep k < j)
+    (hmono : ∀ k k', k ≤ k' → rep k ≤ rep k') (hidem : ∀ k, rep (rep k) = rep k)
+    (hadjS : ∀ s, ∀ r ∈ adjS s, s < r ∧ r < j) (hrootlt : ∀ r ∈ roots, r < j)
+    (hpat : ∀ k k', k < k' → k' < j → rep k < k' →
+      (st.L.getD k #[]).get (st.piv.getD k' 0) ≠ 0 → k' ∈ adjS (rep k))
+    (hroots : ∀ k < j, (P.col j).get (st.piv.getD k 0) ≠ 0 → k ∈ roots) :
+    ValidSchedule (prev st j) (P.col j) (snodeSchedule st j rep adjS roots) := by
+  have hlen : (prev st j).length = j := prev_length st j
+  have := validSchedule_snodeDfs (prev st j) (P.col j) rep adjS roots
+    (fun k => (st.piv.getD k 0, st.L.getD k #[])) h.unit (fun k hk => by rw [prev_getElem])
+    hge (by rw [hlen]; exact hrlt) hmono hidem (by rw [hlen]; exact hadjS) (by rw [hlen]; exact hrootlt)
+    (by
+      intro k k' hkk' hk' hr
+      rw [prev_getElem, prev_getElem]
+      exact hpat k k' hkk' (hlen ▸ hk') hr)
+    (by
+      intro k hk
+      rw [prev_getElem]
+      exact hroots k (hlen ▸ hk))
+  rw [hlen] at this
+  exact this
+
+/-- **C02 (one column, supernodal search).** -/
+theorem luFactor_snode_dfs_schedule (P : Params K Rat) (hP : Legal P) (st : St K) (j : Nat) (h : Inv P st j)
+    (rep : Nat → Nat) (adjS : Nat → List Nat) (roots : List Nat)
+    (hge : ∀ k, k ≤ rep k) (hrlt : ∀ k < j, rep k < j)
+    (hmono : ∀ k k', k ≤ k' → rep k ≤ rep k') (hidem : ∀ k, rep (rep k) = rep k)
+    (hadjS : ∀ s, ∀ r ∈ adjS s, s < r ∧ r < j) (hrootlt : ∀ r ∈ roots, r < j)
+    (hpat : ∀ k k', k < k' → k' < j → rep k < k' →
+      (st.L.getD k #[]).get (st.piv.getD k' 0) ≠ 0 → k' ∈ adjS (rep k))
+    (hroots : ∀ k < j, (P.col j).get (st.piv.getD k 0) ≠ 0 → k ∈ roots) :
+    (elimBlocks (snodeSchedule st j rep adjS roots) (P.col j)).1 = stepW P st j ∧
+    stepBlocks P st j (snodeSchedule st j rep adjS roots) = step P st j :=
+  luFactor_supernodal_schedule P hP st j h _
+    (luFactor_snode_dfs_validSchedule P st j h rep adjS roots hge hrlt hmono hidem hadjS hrootlt hpat hroots)
+
+/-- **C02 (whole factorization, supernodal search).** Supernode partition and patterns may change
+from column to column and depend on the factors computed so far. -/
+theorem luFactor_snode_dfs (laws : MagLaws K) (P : Params K Rat) (hP : Legal P) (b : Bool)
+    (rep : St K → Nat → Nat → Nat) (adjS : St K → Nat → Nat → List Nat) (roots : St K → Nat → List Nat)
+    (hge : ∀ j < P.n, ∀ k, k ≤ rep (run P b j) j k) (hrlt : ∀ j < P.n, ∀ k < j, rep (run P b j) j k < j)
+    (hmono : ∀ j < P.n, ∀ k k', k ≤ k' → rep (run P b j) j k ≤ rep (run P b j) j k')
+    (hidem : ∀ j < P.n, ∀ k, rep (run P b j) j (rep (run P b j) j k) = rep (run P b j) j k)
+    (hadjS : ∀ j < P.n, ∀ s, ∀ r ∈ adjS (run P b j) j s, s < r ∧ r < j)
+    (hrootlt : ∀ j < P.n, ∀ r ∈ roots (run P b j) j, r < j)
+    (hpat : ∀ j < P.n, (run P b j).info = 0 → ∀ k k', k < k' → k' < j → rep (run P b j) j k < k' →
+      ((run P b j).L.getD k #[]).get ((run P b j).piv.getD k' 0) ≠ 0 →
+      k' ∈ adjS (run P b j) j (rep (run P b j) j k))
+    (hroots : ∀ j < P.n, (run P b j).info = 0 → ∀ k < j,
+      (P.col j).get ((run P b j).piv.getD k 0) ≠ 0 → k ∈ roots (run P b j) j) :
+    luFactorBlocks P b (fun st j => snodeSchedule st j (rep st j) (adjS st j) (roots st j)) = luFactor P b :=
+  luFactorBlocks_eq_luFactor laws P hP b _ (fun j hj h0 =>
+    luFactor_snode_dfs_validSchedule P _ j (run_inv laws P (le_of_lt hP.u_pos) hP.u_le_one hP.col_size b j h0)
+      _ _ _ (hge j hj) (hrlt j hj) (hmono j hj) (hidem j hj) (hadjS j hj) (hrootlt j hj) (hpat j hj h0)
+      (hroots j hj h0))
+
+end Slu.LU
+
 /-! ### Non-vacuity: the hypotheses are satisfiable and the clauses are exercised -/
 namespace Slu.LU
 open Slu
@@ -355,6 +530,89 @@ theorem exQ_sched_valid (j : Nat) (hj : j < 3) :
 
 example : luFactorBlocks exQ false (fun st j => [(prev st j).reverse]) = luFactor exQ false :=
   luFactorBlocks_eq_luFactor magLaws_rat exQ exQ_legal false _ (fun j hj _ => exQ_sched_valid j hj)
+
+/-! non-vacuity of the DFS theorems: for column 3 of this 4x4 matrix the search starts at columns 0
+and 1 (`A(0,3), A(1,3) ≠ 0`), reaches column 2 through the edge 0 → 2 (`L_0(piv 2) = 1/2`), and
+lists the columns as 1, 0, 2 — not the natural order; column 2 itself reaches nothing -/
+def exDCols : Nat → Vec Rat
+  | 0 => #[2, 0, 1, 1]
+  | 1 => #[0, 3, 0, 1]
+  | 2 => #[0, 0, 4, 1]
+  | _ => #[1, 2, 0, 5]
+
+def exD : Params Rat Rat :=
+  { m := 4, n := 4, col := exDCols, u := 1, order := fun _ => [0, 1, 2, 3], oldPiv := fun _ => 0, diagRow := fun j => j }
+
+theorem exD_legal : Legal exD :=
+  ⟨by decide, by decide, by intro j; match j with | 0 => rfl | 1 => rfl | 2 => rfl | (_ + 3) => rfl⟩
+
+example : (luFactor exD false).info = 0 ∧ (luFactor exD false).piv = #[0, 1, 2, 3] := by decide +kernel
+example : numRoots (run exD false 3) 3 (exD.col 3) = [0, 1] ∧
+    numAdj (run exD false 3) 3 0 = [2] ∧ numAdj (run exD false 3) 3 1 = [] := by decide +kernel
+/-- postorder (`segrep`) and the order of the updates (its reverse) -/
+example : dfsPost 3 (numAdj (run exD false 3) 3) (numRoots (run exD false 3) 3 (exD.col 3)) = [2, 0, 1] ∧
+    dfsRevPost 3 (numAdj (run exD false 3) 3) (numRoots (run exD false 3) 3 (exD.col 3)) = [1, 0, 2] := by
+  decide +kernel
+/-- column 2 reaches no previous column: empty schedule -/
+example : dfsScheduleNum (run exD false 2) 2 (exD.col 2) = [] := by decide +kernel
+/-- the multipliers come out in DFS order … -/
+example : (elimBlocks (dfsScheduleNum (run exD false 3) 3 (exD.col 3)) (exD.col 3)).2 = [2, 1, -1/2] ∧
+    stepUs exD (run exD false 3) 3 = [1, 2, -1/2] := by decide +kernel
+/-- … the theorem applies … -/
+example : luFactorBlocks exD false (fun st j => dfsScheduleNum st j (exD.col j)) = luFactor exD false :=
+  luFactor_dfs_numeric magLaws_rat exD exD_legal false
+/-- … and evaluation agrees -/
+example : (luFactorBlocks exD false (fun st j => dfsScheduleNum st j (exD.col j))).U = (luFactor exD false).U := by
+  decide +kernel
+
+/-! non-vacuity of the supernodal form: columns 0 and 1 form one supernode (representative 1); for
+column 3 the search starts at column 0 (→ representative 1, `repfnz = 0`) and column 2 and applies
+the blocks [2], [0, 1] in that order -/
+def exECols : Nat → Vec Rat
+  | 0 => #[2, 1, 0, 1]
+  | 1 => #[0, 3, 0, 1]
+  | 2 => #[0, 0, 4, 1]
+  | _ => #[1, 0, 2, 5]
+
+def exE : Params Rat Rat :=
+  { m := 4, n := 4, col := exECols, u := 1, order := fun _ => [0, 1, 2, 3], oldPiv := fun _ => 0, diagRow := fun j => j }
+
+theorem exE_legal : Legal exE :=
+  ⟨by decide, by decide, by intro j; match j with | 0 => rfl | 1 => rfl | 2 => rfl | (_ + 3) => rfl⟩
+
+def exERep (k : Nat) : Nat := if k ≤ 1 then 1 else k
+
+example : (luFactor exE false).info = 0 ∧ (luFactor exE false).piv = #[0, 1, 2, 3] := by decide +kernel
+example : numRoots (run exE false 3) 3 (exE.col 3) = [0, 2] := by decide +kernel
+example : snodeSegs 3 exERep (fun _ => []) [0, 2] = [[2], [0, 1]] := by decide +kernel
+
+theorem exE_inv : Inv exE (run exE false 3) 3 :=
+  run_inv magLaws_rat exE (by decide) (by decide) exE_legal.col_size false 3 (by decide +kernel)
+
+/-- the hypotheses of `luFactor_snode_dfs_schedule` hold (no column of the supernode {0,1} has a
+nonzero at the pivot row of column 2, so its structure beyond the block is empty) … -/
+example := luFactor_snode_dfs_schedule exE exE_legal (run exE false 3) 3 exE_inv exERep (fun _ => []) [0, 2]
+  (by intro k; unfold exERep; split <;> omega)
+  (by intro k hk; unfold exERep; split <;> omega)
+  (by intro k k' h; simp only [exERep]; split_ifs <;> omega)
+  (by intro k; simp only [exERep]; split_ifs <;> omega)
+  (by intro s r hr; simp at hr)
+  (by intro r hr; simp at hr; omega)
+  (by
+    intro k k' h1 h2 h3
+    have hk' : k' = 2 := by unfold exERep at h3; split at h3 <;> omega
+    subst hk'
+    have : k = 0 ∨ k = 1 := by omega
+    rcases this with rfl | rfl <;> decide +kernel)
+  (by
+    intro k hk
+    have : k = 0 ∨ k = 1 ∨ k = 2 := by omega
+    rcases this with rfl | rfl | rfl <;> decide +kernel)
+/-- … and evaluation agrees: multipliers in block order 2, 0, 1 versus natural order -/
+example : (elimBlocks (snodeSchedule (run exE false 3) 3 exERep (fun _ => []) [0, 2]) (exE.col 3)).2 = [2, 1, -1/2] ∧
+    stepUs exE (run exE false 3) 3 = [1, -1/2, 2] ∧
+    (stepBlocks exE (run exE false 3) 3 (snodeSchedule (run exE false 3) 3 exERep (fun _ => []) [0, 2])).U
+      = (luFactor exE false).U := by decide +kernel
 
 /-- the complex magnitude `|re| + |im|` over the Gaussian rationals satisfies the laws, so every
 theorem above applies verbatim to complex data (`Field (Cx Rat)` is proved in Lemmas/CxRat.lean).
